@@ -238,3 +238,11 @@ def sources(ctx, navis, rng, tmp):
         dt = {16: (np.float16,), 32: (np.float32,), 64: (np.float64,)}[prec]
         if base[1].nodes.x.dtype not in dt:
             ctx.violation('coordinates are not read at the requested precision', desc, str(base[1].nodes.x.dtype))
+        # ... for EVERY source kind, and with the same column types as the path source
+        want_dt = {c: str(base[1].nodes[c].dtype) for c in ('node_id', 'parent_id', 'x', 'y', 'z', 'radius')}
+        for k, (st, n) in res.items():
+            if st != 'ok':
+                continue
+            got_dt = {c: str(n.nodes[c].dtype) for c in want_dt}
+            if got_dt != want_dt:
+                ctx.violation('read_swc yields different column types (precision) for source kind %s' % k, desc, dict(got=got_dt, path=want_dt))
